@@ -66,6 +66,14 @@ def run():
         good = 'Checker has found an error' in r.stdout
         E.log('selftest (e) false action invariant under Apalache: %s' % ('refuted' if good else 'NOT DETECTED'))
         ok &= good
+        # (f) the liveness property is not vacuous: without fairness TLC finds a lasso that never drains
+        work = os.path.join(tmp, 'w6'); os.makedirs(work)
+        out = os.path.join(work, 'o6.txt')
+        r = E.run_tlc('MC_BridgeLive', 'SPECIFICATION UnfairSpec\nPROPERTIES EventuallyDrained\nCHECK_DEADLOCK FALSE\n', work, out, 240, workers=4)
+        txt = open(out).read()
+        good = 'Temporal property EventuallyDrained was violated' in txt or 'EventuallyDrained' in r['violated']
+        E.log('selftest (f) EventuallyDrained without fairness: %s' % ('violated (lasso found)' if good else 'NOT DETECTED'))
+        ok &= good
     finally:
         shutil.rmtree(tmp, ignore_errors=True)
     E.log('SELFTEST %s' % ('PASS' if ok else 'FAIL'))
